@@ -239,6 +239,35 @@ func c06InitialPacket(c *core.Ctx) {
 			// the variable itself comes from Opts().InitialPacket()
 		}
 		c.Check(R, sockOnOpen+"/initial-packet-cloned-per-session", cl.Pos(), ok, "the shared options reader is replaced by its Clone() before sendPacket")
+		// sent exactly when one is configured (mutation audit round 4): on the non-nil edge of the value read from
+		// Opts().InitialPacket(), and on nothing else
+		fromOpts := false
+		if v != nil {
+			for _, d := range u.DefsOf(v) {
+				if ce, isC := ast.Unparen(d).(*ast.CallExpr); isC && calleeNameOf(ce) == "InitialPacket" {
+					fromOpts = true
+				}
+			}
+		}
+		configured := nilGuard(true, func(x *core.Unit, e ast.Expr) bool { return v != nil && core.ObjOf(x.Info(), e) == types.Object(v) })
+		also := ""
+		var open *core.Call
+		for _, oc := range u.CallsTo(sockSendPkt) {
+			if pktConst(info, oc.Arg(0), "open") {
+				open = oc
+			}
+		}
+		for _, f := range g.Facts() {
+			// what decides the open packet as well (the opening → open transition) is not a condition of the message
+			if open != nil && g.EdgeDominates(f.Br.B, f.Edge, open.Loc) {
+				continue
+			}
+			if g.EdgeDominates(f.Br.B, f.Edge, cl.Loc) && configured(u, f.Br) == 0 {
+				also = core.ExprString(f.Br.Cond)
+			}
+		}
+		c.Check(R, sockOnOpen+"/initial-packet-sent-iff-configured", cl.Pos(), fromOpts && open != nil && g.Dominates(open.Loc, cl.Loc) && g.GuardedBy(cl.Loc, configured) && also == "",
+			keyf("the data is Opts().InitialPacket(): %v; sent on its non-nil edge: %v; further conditions: %q", fromOpts, g.GuardedBy(cl.Loc, configured), also))
 	}
 	c.Need(R, "initial MESSAGE sendPacket in onOpen", n, 1)
 }
